@@ -15,4 +15,5 @@ CONSTANTS
   Dev_RemovedForStaged = FALSE
   Dev_EnableErrorIgnored = FALSE
 INVARIANTS TerminatedInvisible
+VIEW MCView
 CHECK_DEADLOCK FALSE
